@@ -92,6 +92,10 @@ const (
 	_listFixedUntypedLenTagMin = byte(0x78)
 	_listFixedUntypedLenTagMax = byte(0x7f)
 	_listFixedUntypedLenMax    = _listFixedUntypedLenTagMax - _listFixedUntypedLenTagMin
+
+	// a declared length is trusted for pre-allocation only up to this many elements;
+	// longer lists grow as their elements actually arrive
+	_listPreallocMax = 1024
 )
 
 func listFixedTypedLenTag(tag byte) bool {
@@ -240,7 +244,15 @@ func (d *Decoder) readTypedList(tag byte) (interface{}, error) {
 		return nil, newCodecError("readTypedList", "can't find list type %s", listTyp)
 	}
 
-	aryValue := reflect.MakeSlice(aryType, length, length)
+	// grow by appending when the length is unknown or too large to be trusted
+	appendMode := isVariableArr
+	prealloc := length
+	if length > _listPreallocMax {
+		appendMode = true
+		prealloc = 0
+	}
+
+	aryValue := reflect.MakeSlice(aryType, prealloc, prealloc)
 	holder := d.addDecoderRef(aryValue)
 
 	for j := 0; j < length || isVariableArr; j++ {
@@ -253,7 +265,7 @@ func (d *Decoder) readTypedList(tag byte) (interface{}, error) {
 		}
 
 		// a null element is a value, not the end of the list
-		if isVariableArr {
+		if appendMode {
 			aryValue = reflect.Append(aryValue, convertTo(aryType.Elem(), item))
 			holder.change(aryValue)
 		} else {
@@ -294,7 +306,15 @@ func (d *Decoder) readUntypedList(tag byte) (interface{}, error) {
 		return nil, nil
 	}
 
-	ary := make([]interface{}, length)
+	// grow by appending when the length is unknown or too large to be trusted
+	appendMode := isVariableArr
+	prealloc := length
+	if length > _listPreallocMax {
+		appendMode = true
+		prealloc = 0
+	}
+
+	ary := make([]interface{}, prealloc)
 	aryValue := reflect.ValueOf(ary)
 	holder := d.addDecoderRef(aryValue)
 
@@ -307,7 +327,7 @@ func (d *Decoder) readUntypedList(tag byte) (interface{}, error) {
 			return nil, newCodecError("readUntypedList", err)
 		}
 
-		if isVariableArr {
+		if appendMode {
 			aryValue = reflect.Append(aryValue, reflect.ValueOf(&it).Elem())
 			holder.change(aryValue)
 		} else {
